@@ -46,9 +46,10 @@ def main():
             if f is None or isinstance(f.node, ast.Lambda):
                 continue
             loc = da.local_names(f.node) - set(f.params)
+            # loop / comprehension variables are derived by the rules from the code, never quoted: not anchors
             for n in astx.walk_own(f.node):
-                if isinstance(n, ast.comprehension):
-                    loc |= set(astx.assigned_names(n.target))
+                if isinstance(n, ast.For):
+                    loc -= set(astx.assigned_names(n.target))
             hit = sorted(x for x in loc & toks if len(x) > 1)
             if hit:
                 per[qn] = hit
